@@ -572,7 +572,7 @@ def _lemma_p(ns_q, ns_t, facets=None):
                         params={"data_pairs": n, "crlf": crlf, "facet": facet},
                         timeout=3000,
                         mem_gb=16,
-                        mem_expect=4,
+                        mem_expect=4 if n < 8 else 9,
                         lemma="P",
                     )
                 )
